@@ -119,6 +119,8 @@ class Executor:
         for key in (t, t.split("::")[-1]):
             if key in self.consts:
                 c = self.consts[key]
+                if not isinstance(c, (int, Fraction)):
+                    return c            # a structured constant supplied by the property module
                 return VInt(c) if isinstance(c, int) else VF.const(c)
         if t.startswith("{closure@") or t.startswith("ZeroSized"):
             cm = re.search(r"\{closure@[^}]*\}", t)
@@ -210,6 +212,12 @@ class Executor:
 
     def operand(self, frame, op):
         if op[0] == "const":
+            pm = re.search(r"::promoted\[(\d+)\]$", op[1].strip())
+            if pm:
+                body = self.fns.get(f"{frame.fn.name}::promoted[{pm.group(1)}]")
+                if body is None:
+                    raise ExecError(f"no MIR body for promoted constant {op[1]!r} of {frame.fn.name}")
+                return self.exec_fn(body, [])
             return self.const_val(op[1])
         v = self.read_place(frame, op[1])
         return self.copy_val(v)
